@@ -8,7 +8,10 @@ def load_claims():
     return {f[:-5]: json.load(open(os.path.join(d, f))) for f in sorted(os.listdir(d)) if f.endswith('.json')}
 
 
-CLAIMS = load_claims()
+# properties whose check has been integrated and verified on the unchanged tree by the integrator; claim files of
+# checks still under construction are ignored until they are listed here
+READY = ['C05', 'C06', 'C11', 'C13', 'C14', 'C15', 'C16', 'C18']
+CLAIMS = {k: v for k, v in load_claims().items() if k in READY}
 PENDING = 'check not built yet (framework under construction; see DESIGN.md section 9 build order)'
 
 
@@ -34,6 +37,7 @@ def main():
               'engine': 'tlc', 'technique': c['technique'],
               'level_claimed': {'category': 'model_checking', 'text': c['text'], 'design_ref': c['design']},
               'level_note': c['note']})
+    m['engines'][0]['serves_properties'] = sorted(CLAIMS)
         else:
             m['not_applicable'].append({'property_id': p, 'reason': NA.get(p, PENDING)})
     json.dump(m, open(os.path.join(V, 'MANIFEST.json'), 'w'), indent=1)
